@@ -275,8 +275,10 @@ def types_prelude(structs):
     out = []
     for name in sorted(enums):
         out.append(R.enum_decl(enums[name], derive_debug=True))
+        out.append(f"pub type A{name} = {name};")
     for n, _ in sorted(inners):
         out.append(R.inner_decl(n, debug=True))
+        out.append(f"pub type A{R.inner_name(n)} = {R.inner_name(n)};")
     return "\n".join(out) + "\n"
 
 
@@ -290,7 +292,14 @@ def c17(tier):
     items, meta = [], []
     for j, (kname, s) in enumerate(cases):
         probes = S.c17_probes(s)
-        items.append(D.Item(j, R.struct_decl(s), probes=[(k, t) for k, t, _ in probes]))
+        text = R.struct_decl(s)
+        if j % 5 == 3:
+            # the struct is `pub(super)` / `pub(in path)` inside a nested module and is used from the parent: the accessors are `pub`
+            # methods of that type, so the access rules - not the struct's visibility - decide what the parent can call
+            vis = 'pub(super)' if j % 2 else 'pub(in super)'
+            inner = text.replace("] pub struct S", f"] {vis} struct S", 1)
+            text = "pub mod inner { use super::*; " + inner.replace("\n", " ") + " } use inner::S;"
+        items.append(D.Item(j, text, probes=[(k, t) for k, t, _ in probes]))
         meta.append((kname, s, probes))
     errs, unatt = D.compile_items(arts, items, "c17", emit="metadata", nshards=32, prelude=prelude)
     if unatt:
@@ -300,7 +309,7 @@ def c17(tier):
     outcomes = set()
     debug_rejected = 0
     for j, (kname, s, probes) in enumerate(meta):
-        text = R.struct_decl(s)
+        text = items[j].text
         f0 = [x for x in s.fields if x.name == "f0"][0]
         if j in errs:
             if s.debug and (not f0.readable or f0.arr):
@@ -385,6 +394,8 @@ REGIMES = {
     "missing_docs": "#![deny(missing_docs)]\n",
     "forbid_unsafe": "#![forbid(unsafe_code)]\n",
     "all": "#![no_std]\n#![deny(missing_docs)]\n#![forbid(unsafe_code)]\n",
+    # the declaring module has its own item named `core`: whatever the generated code calls `core` must still be the core crate
+    "core_shadowed": "#![no_std]\n",
 }
 
 
@@ -405,8 +416,10 @@ def c18(tier):
     types = []
     for name in sorted(enums):
         types.append(R.enum_decl(enums[name], derive_debug=True, doc=True))
+        types.append(f"/// alias\npub type A{name} = {name};")
     for n, _ in sorted(inners):
         types.append(R.inner_decl(n, debug=True, doc=True))
+        types.append(f"/// alias\npub type A{R.inner_name(n)} = {R.inner_name(n)};")
     types_txt = "\n".join(types) + "\n"
     items = [D.Item(j, R.struct_decl(s, doc=True)) for j, s in enumerate(structs)]
     base_prelude = "//! documented crate\n#![allow(dead_code, unused_imports, deprecated, non_camel_case_types, non_upper_case_globals, unused_parens)]\nuse bitbybit::{bitenum, bitfield};\nuse arbitrary_int::*;\n"
@@ -414,7 +427,9 @@ def c18(tier):
     for rname, attrs in REGIMES.items():
         prelude = attrs + base_prelude + types_txt
         keep = [] if rname == "all" else None
-        errs, unatt = D.compile_items(arts, items, f"c18-{rname}", emit="metadata", nshards=16, prelude=prelude, mod_doc=True, cap_lints=False, keep_files=keep)
+        inner = '#[doc = "a user module that happens to be called core"] pub mod core { #[doc = "f"] pub fn id() -> u8 { 1 } }' if rname == "core_shadowed" else ""
+        errs, unatt = D.compile_items(arts, items, f"c18-{rname}", emit="metadata", nshards=16, prelude=prelude, mod_doc=True, cap_lints=False, keep_files=keep,
+                                      mod_inner=inner)
         if keep:
             files = keep
         chk.transitions += len(items)
@@ -494,7 +509,8 @@ def c18(tier):
         chk.sample({"declaration": R.struct_decl(structs[j], doc=True)[:600], "regimes": list(REGIMES), "verdict": "compiles in all"})
     chk.extra.update({"structs": len(structs), "enums": len(enums), "nested_types": len(inners)})
     chk.bounds.append("documented cross-section: every " + ("k-th" if tier == 'quick' else "") + " struct of the contig/array/non-contiguous/signed/custom/builder/debug/mixed/default-form sets (fields truncated to 10/24), "
-                      "all enum types they use plus stand-alone bitenums in all three exhaustive modes; each compiled under #![no_std], #![deny(missing_docs)], #![forbid(unsafe_code)] and all three; "
+                      "all enum types they use plus stand-alone bitenums in all three exhaustive modes; each compiled under #![no_std], #![deny(missing_docs)], #![forbid(unsafe_code)], all three, "
+                      "and inside a module that has its own item named `core`; "
                       "-Zunpretty=expanded output scanned with syn for unsafe (outside #[automatically_derived]), std/alloc paths, absolute paths outside core/arbitrary_int, unexpanded macros")
     return chk.finish()
 
